@@ -150,6 +150,12 @@ Definition bitpack_for_block (T : N) (vals : list N) : block_choice :=
    decides: chunk table, header words, and for the out-of-line raw tail the copied values. *)
 Definition stub_pack (T W : N) (_ : list N) : list N := repeat 0 (N.to_nat (1024 * W / T)).
 
+(* Known finding (KNOWN_FINDINGS.txt, class Known_C26_inline_bitpack_full_u64): a 1024-value chunk
+   of 64-bit data with bit width 64 takes (1 + 1024) * 8 = 8200 bytes > MAX_MINIBLOCK_BYTES. *)
+Definition Known_C26_inline_bitpack_full_u64 (i : N * list N) : bool :=
+  let '(T, vals) := i in
+  existsb (fun c : chunk => MAX_MINIBLOCK_BYTES <? sum_N (fst c)) (snd (inline_compress stub_pack T vals)).
+
 (* positions of the header words inside the word buffer, given the chunk table *)
 Fixpoint header_words (T : N) (words : list N) (chunks : list chunk) : list N :=
   match chunks with
